@@ -423,4 +423,110 @@ theorem heappop_min (swo : SWO lt P) (a : Array α) (x : α) (a' : Array α) (hP
   obtain ⟨j, hj, rfl⟩ := Array.getElem_of_mem hmem
   exact root_min swo a hP h j hj
 
+
+/-! ### draining a heap, `min` -/
+
+theorem drain_mem (a : Array α) (n : Nat) (y : α) (hy : y ∈ drain lt n a) : y ∈ a := by
+  induction n generalizing a with
+  | zero => simp [drain] at hy
+  | succ n ih =>
+    unfold drain at hy
+    split at hy
+    · simp at hy
+    · rename_i x a' hpop
+      have hp := heappop_perm lt a x a' hpop
+      rcases List.mem_cons.mp hy with rfl | hy
+      · exact hp.mem_iff.mp (Array.mem_push.mpr (.inr rfl))
+      · exact hp.mem_iff.mp (Array.mem_push.mpr (.inl (ih a' hy)))
+
+/-- Popping repeatedly yields a non-decreasing sequence. -/
+theorem drain_sorted (swo : SWO lt P) (a : Array α) (hP : AllP P a) (h : HeapFrom lt a 0) (n : Nat) :
+    (drain lt n a).Pairwise (fun x y => lt y x = false) := by
+  induction n generalizing a with
+  | zero => simp [drain]
+  | succ n ih =>
+    unfold drain
+    split
+    · exact .nil
+    · rename_i x a' hpop
+      have hp := heappop_perm lt a x a' hpop
+      have hP' : AllP P a' := by
+        rw [allP_iff_mem] at *
+        intro y hy
+        exact hP y (hp.mem_iff.mp (Array.mem_push.mpr (.inl hy)))
+      refine List.Pairwise.cons ?_ (ih a' hP' (heappop_heap swo a x a' hP h hpop))
+      intro y hy
+      exact heappop_min swo a x a' hP h hpop y (drain_mem a' n y hy)
+
+/-- Draining with enough fuel returns every element exactly once. -/
+theorem drain_perm (a : Array α) (n : Nat) (hn : a.size ≤ n) : (drain lt n a).Perm a.toList := by
+  induction n generalizing a with
+  | zero =>
+    have : a = #[] := by apply Array.eq_empty_of_size_eq_zero; omega
+    subst this; simp [drain]
+  | succ n ih =>
+    unfold drain
+    split
+    · rename_i hnone
+      have := heappop_isSome (lt := lt) a
+      rw [hnone] at this
+      have hz : ¬ 0 < a.size := by intro hpos; simp [hpos] at this
+      have : a = #[] := by apply Array.eq_empty_of_size_eq_zero; omega
+      subst this; simp
+    · rename_i x a' hpop
+      have hp := heappop_perm lt a x a' hpop
+      have hs : a'.size + 1 = a.size := by simpa using hp.size_eq
+      have h1 := ih a' (by omega)
+      have h2 : (x :: a'.toList).Perm a.toList := by
+        have := Array.perm_iff_toList_perm.mp hp
+        simp only [Array.toList_push] at this
+        exact (List.perm_append_comm (l₁ := [x]) (l₂ := a'.toList)).trans this
+      exact (h1.cons x).trans h2
+
+/-- Python's `min` returns an element that nothing in the list is `<` of. -/
+theorem minFirst_spec (swo : SWO lt P) (l : List α) (hP : ∀ x ∈ l, P x) (m : α)
+    (h : minFirst lt l = some m) : m ∈ l ∧ ∀ y ∈ l, lt y m = false := by
+  cases l with
+  | nil => simp [minFirst] at h
+  | cons x xs =>
+    simp only [minFirst, Option.some.injEq] at h
+    subst h
+    suffices H : ∀ (ys : List α) (best : α) (seen : List α), best ∈ seen → (∀ z ∈ seen, P z) →
+        (∀ z ∈ ys, P z) → (∀ z ∈ seen, lt z best = false) →
+        (ys.foldl (fun best y => if lt y best then y else best) best) ∈ seen ++ ys ∧
+          ∀ z ∈ seen ++ ys, lt z (ys.foldl (fun best y => if lt y best then y else best) best) = false by
+      have := H xs x [x] (by simp) (by intro z hz; simp at hz; subst hz; exact hP _ (by simp))
+        (by intro z hz; exact hP z (by simp [hz]))
+        (by intro z hz; simp at hz; subst hz; exact swo.irrefl (hP _ (by simp)))
+      simpa using this
+    intro ys
+    induction ys with
+    | nil => intro best seen hb _ _ hmin; simpa using ⟨hb, hmin⟩
+    | cons y ys ih =>
+      intro best seen hb hPs hPy hmin
+      simp only [List.foldl_cons]
+      have hPy' : P y := hPy y (by simp)
+      have hPb : P best := hPs best hb
+      have hseen' : ∀ z ∈ seen ++ [y], P z := by
+        intro z hz; rcases List.mem_append.mp hz with hz | hz
+        · exact hPs z hz
+        · simp at hz; subst hz; exact hPy'
+      have hys' : ∀ z ∈ ys, P z := fun z hz => hPy z (by simp [hz])
+      by_cases hlt : lt y best = true
+      · simp only [hlt, if_true]
+        have := ih y (seen ++ [y]) (by simp) hseen' hys' (by
+          intro z hz
+          rcases List.mem_append.mp hz with hz | hz
+          · exact swo.le_trans hPy' hPb (hPs z hz) (swo.asymm hPy' hPb hlt) (hmin z hz)
+          · simp at hz; subst hz; exact swo.irrefl hPy')
+        simpa [List.append_assoc] using this
+      · have hlt' : lt y best = false := by simpa using hlt
+        simp only [hlt', Bool.false_eq_true, if_false]
+        have := ih best (seen ++ [y]) (by simp [hb]) hseen' hys' (by
+          intro z hz
+          rcases List.mem_append.mp hz with hz | hz
+          · exact hmin z hz
+          · simp at hz; subst hz; exact hlt')
+        simpa [List.append_assoc] using this
+
 end ErdosVerif.Model.Heap
